@@ -236,6 +236,16 @@ pub fn suite_preds(ctx: &Ctx, thorough: bool) {
         }
         // the four built-in string shapes agree (C13) and validate + lower-case (C04)
         let want: Result<String, ()> = if vt { Ok(s.to_ascii_lowercase()) } else { Err(()) };
+        if let Ok(Ok(p)) = guarded(|| GenericPurlBuilder::new(s.clone(), "n").build()) {
+            if let Err(m) = guarded(|| p.to_string()) {
+                ctx.violate("C06.panic", "formatting a PURL obtained with a built-in type parameter never panics", json!({"type": s}), m, "a string".into());
+            }
+        }
+        if let Ok(Ok(p)) = guarded(|| GenericPurlBuilder::new(SmallString::from(s.as_str()), "n").build()) {
+            if let Err(m) = guarded(|| p.to_string()) {
+                ctx.violate("C06.panic", "formatting a PURL obtained with a built-in type parameter never panics", json!({"type": s, "shape": "SmallString"}), m, "a string".into());
+            }
+        }
         let shapes: Vec<(&str, Result<String, ()>)> = vec![
             ("String", GenericPurlBuilder::new(s.clone(), "n").build().map(|p| p.package_type().clone()).map_err(|_| ())),
             ("Cow::Borrowed", GenericPurlBuilder::new(std::borrow::Cow::Borrowed(s.as_str()), "n").build().map(|p| p.package_type().to_string()).map_err(|_| ())),
@@ -415,6 +425,19 @@ pub fn suite_eq(ctx: &Ctx, thorough: bool) {
     }
     pairs(ctx, &vals);
     pairs(ctx, &tvals);
+    // values made with the builder: fields that differ only in insignificant-looking ways must still be told apart
+    let mut built: Vec<(String, GenericPurl<String>, String)> = vec![];
+    let nss = ["", "a", "a/b", "a//b", "a/b/", "/a/b", "/", "a%2Fb", "A/b"];
+    let subs = ["", "s", "s/", "/s", "./s", "s/../t", "s//t", "s/t"];
+    let keys = ["k", "K", "k1", "arch", "Arch=x86", "arch=x86"];
+    for ns in nss { for sub in subs { for (ki, key) in keys.iter().enumerate() {
+        let mut b = GenericPurlBuilder::new("t".to_owned(), "n").with_namespace(ns).with_subpath(sub);
+        if let Ok(nb) = b.clone().with_qualifier(*key, if ki % 2 == 0 { "x86=64" } else { "64" }) { b = nb; }
+        if let Ok(Ok(p)) = guarded(|| b.build()) {
+            if let Ok(t) = guarded(|| p.to_string()) { built.push((format!("builder ns={ns:?} sub={sub:?} key={key:?}"), p, t)); }
+        }
+    } } }
+    pairs(ctx, &built);
     // built values with '&' / '=' in qualifier values vs separate qualifiers
     let x = GenericPurlBuilder::new("t".to_owned(), "n").with_qualifier("k", "a&l=c").unwrap().build().unwrap();
     let y = GenericPurlBuilder::new("t".to_owned(), "n").with_qualifier("k", "a").unwrap().with_qualifier("l", "c").unwrap().build().unwrap();
